@@ -222,6 +222,7 @@ def run(ck):
     from props import C07 as _C07
 
     common.import_results(ck, _C07, "2", "Generic", "1")
+    common.import_results(ck, _C07, "4", "LoopHandle", "5")
     # every (re)registration really reaches the poller: interest, mode and key last requested are the ones armed
     for q, callee in (("<Generic as EventSource>::register", "register"), ("<Generic as EventSource>::reregister", "reregister")):
         g = ck.opt_body(q)
